@@ -397,6 +397,15 @@ func replayLegacy(line []byte, a *Acc) {
 		eq("j2x.JsonNewJson", string(got)+cls(e), string(cj)+cls(ce))
 		gx, e := j2x.JsonNewXml(jdoc, "a:p", "b:q.r")
 		eq("j2x.JsonNewXml", string(gx)+cls(e), string(cx)+cls(cxe))
+		// key pairs the core refuses (after a pair it accepts): the wrappers report the error, no partial document
+		for _, bad := range [][]string{{"a:p", "a:b:c"}, {"a:p", "b:q.*"}, {"a:p", "b:"}, {"a[x]:p"}} {
+			_, ce := mv.NewMap(bad...)
+			gj, e1 := j2x.JsonNewJson(jdoc, bad...)
+			gx, e2 := j2x.JsonNewXml(jdoc, bad...)
+			if ce != nil {
+				eq(fmt.Sprintf("j2x.JsonNewJson / JsonNewXml with the refused key pairs %v", bad), fmt.Sprintf("%q %s %q %s", gj, cls(e1), gx, cls(e2)), `"" err "" err`)
+			}
+		}
 	}
 	called("JsonLeafNodes")
 	called("JsonLeafValues")
